@@ -122,12 +122,16 @@ def gen(rs: int, tier: str, index: int) -> dict:
         for c in range(r.randint(1, 3)):
             ops = []
             for o in range(r.randint(1, 5)):
-                kind = r.choice(["plain", "labels", "labels", "task_id", "broker", "labels_task_id", "reuse"])
+                kind = r.choice(["plain", "labels", "labels", "task_id", "broker", "labels_task_id", "reuse", "reuse_override"])
                 op: Dict[str, Any] = {"id": f"c{c}o{o}", "kind": kind, "pause_us": r.choice([0, 0, 1, 30, 400])}
-                if kind in ("labels", "labels_task_id", "reuse"):
+                if kind in ("labels", "labels_task_id", "reuse", "reuse_override"):
                     op["labels"] = rand_labels(r, f"k{c}{o}_", 1, 3)
                     if r.random() < 0.3 and s["tasks"][0].get("labels"):
                         op["labels"][r.choice(sorted(s["tasks"][0]["labels"]))] = enc_label(rand_label(r))
+                if kind == "reuse_override":
+                    op["labels2"] = {n: enc_label(rand_label(r)) for n in op["labels"]}
+                    if r.random() < 0.5:
+                        op["labels2"][f"k{c}{o}_new"] = enc_label(rand_label(r))
                 if kind in ("task_id", "labels_task_id"):
                     op["task_id"] = f"custom-{c}-{o}"
                 ops.append(op)
@@ -176,6 +180,11 @@ async def _client_fn(world: Any, client: Any) -> None:
                         kicker = kicker.with_broker(other)
                     await kicker.kiq(op["id"])
                     if kind == "reuse":
+                        SENDING.set(op["id"] + "r")
+                        await kicker.kiq(op["id"] + "r")
+                    if kind == "reuse_override":
+                        # the same kicker object sends again after with_labels() changed labels it already carried
+                        kicker = kicker.with_labels(**{n: dec_label(v) for n, v in op["labels2"].items()})
                         SENDING.set(op["id"] + "r")
                         await kicker.kiq(op["id"] + "r")
                 world.rec("client_op_done", None, op=op["id"])
@@ -287,7 +296,7 @@ def oracle(script: dict, run: Any) -> List[Violation]:
         kicks = {e[5]["k"]: e for e in h.kind("kick_call") if e[5]["n"] == 0}
         for c in script["client_ops"]:
             for op in c["ops"]:
-                ids = [op["id"]] + ([op["id"] + "r"] if op["kind"] == "reuse" else [])
+                ids = [op["id"]] + ([op["id"] + "r"] if op["kind"] in ("reuse", "reuse_override") else [])
                 for oid in ids:
                     key = op.get("task_id", oid)
                     e = kicks.get(key)
@@ -296,6 +305,8 @@ def oracle(script: dict, run: Any) -> List[Violation]:
                         continue
                     want = dict(decl or {})
                     want.update(op.get("labels") or {})
+                    if op["kind"] == "reuse_override" and oid.endswith("r"):
+                        want.update(op["labels2"])
                     if user(e[5]["typed"]) != user(want):
                         out.append(Violation("C09/kicker-labels-leak", f"client op {oid} ({op['kind']}): sent labels {user(e[5]['typed'])}, expected declared+own overrides {user(want)}", op=oid))
                     want_tid = op.get("task_id", f"m{oid}")
